@@ -108,3 +108,10 @@ add(
     "Exploration: quick 6k / thorough 80k cases of 1-4 tables built outside gtirb (known, partially unknown at any depth with junk after the first reached unknown node or fully well-formed when the unknown part is unreached, and non-canonical encodings with repeated set elements / mapping keys / rotated order), planted at IR and module level and driven through 1-3 generations of {leave, read, mutate in place, assign with or without reading, retype read or unread}; every written table is compared with the model: byte identity for untouched and for unknown-typed tables, otherwise current type name and reference-decoded value equal to the current value (stale bytes are named as such). Sampling, not proof.",
     "Trusts vlib/auxref.py (encoder/decoder), the model in checks/c14_tables.py, the protobuf runtime.",
 )
+add(
+    "C17",
+    "fault enumeration over generated seed files: exhaustive truncations, single-bit flips, header variations and single structural faults per file; random bytes/splices; judged by a coherence checker and a reference reader",
+    "Fault enumeration: for each generated seed file (quick 48, thorough 1600 files of 30-800 bytes) one fault family is enumerated completely - every cut point, every bit of every byte, 3 replacement values at every position, every other value of each header byte plus short headers and version-field values, or every single structural fault (every ordered pair of UUID-bearing positions made equal, every reference slot x missing / each wrong kind, every enum field x unknown numbers, every UUID field x lengths 0/15/17, payload-less blocks and expressions, contents longer than size) - and random byte strings / splices are tried; each file must be rejected (ValueError where the property names it) or yield an IR that passes the coherence checker (C03+C04 by full walk, distinct UUIDs, typed and attached references, bytes <= size, Enum-typed attributes, re-savable) and equals what a reference reader makes of the file; every unmodified seed must load. Exhaustive per seed file and family, sampled over seed files; hangs are bounded by a per-file 20 s breaker.",
+    "Trusts vlib/coherence.py, vlib/refmsg.py (reference reader), vlib/spec.py + irbuild.py (seed files), the protobuf runtime.",
+    category="fault_enumeration",
+)
